@@ -65,7 +65,10 @@ pub struct C10;
 
 fn gen_skew(r: &mut SplitMix, fudge: u16) -> i64 {
     let f = fudge as i64;
-    match r.below(12) {
+    match r.below(13) {
+        // a skew that is a multiple of 2^32 seconds off (+- the window): far outside the window,
+        // but zero once truncated to 32 bits
+        12 => (1i64 << 32) * *pick(r, &[1i64, 1, -1, 2, 256]) + *pick(r, &[0i64, 1, -1, f, -f, f + 1]),
         0..=3 => 0,
         4 => f,
         5 => -f,
@@ -192,7 +195,7 @@ impl Prop for C10 {
         h
     }
     fn rule() -> String {
-        "one execution = a server with 1-4 TSIG keys (HMAC-SHA1/SHA256, random names and secrets of 1-100 octets) receiving 1-6 requests signed by an independent RFC 8945 implementation: client clock skew (0, +-fudge, +-(fudge+1), up to +-70000 s), server wall-clock steps forwards/backwards between requests (incl. close to 2^39 s), fudge {0,1,300,65535}, MAC truncation {full, half, 10, 9, half-1, full+1}, tampered octet, wrong secret, unknown key, key with the other algorithm, unknown algorithm name, UDP/TCP, with/without EDNS, key names differing in case or sharing a suffix with names in the zone's RDATA (compression of the TSIG owner), answers truncated over UDP before and after name-bearing RRsets were written, requests relayed by a forwarder (header ID differs from the TSIG original ID), requests with an unrelated record in the additional section before OPT/TSIG. Non-trivial = at least one request is not a plain valid one; distinct = distinct scenario".into()
+        "one execution = a server with 1-4 TSIG keys (HMAC-SHA1/SHA256, random names and secrets of 1-100 octets) receiving 1-6 requests signed by an independent RFC 8945 implementation: client clock skew (0, +-fudge, +-(fudge+1), up to +-70000 s, multiples of 2^32 s), server wall-clock steps forwards/backwards between requests (incl. close to 2^39 s), fudge {0,1,300,65535}, MAC truncation {full, half, 10, 9, half-1, full+1}, tampered octet, wrong secret, unknown key, key with the other algorithm, unknown algorithm name, UDP/TCP, with/without EDNS, key names differing in case or sharing a suffix with names in the zone's RDATA (compression of the TSIG owner), answers truncated over UDP before and after name-bearing RRsets were written, requests relayed by a forwarder (header ID differs from the TSIG original ID), requests with an unrelated record in the additional section before OPT/TSIG. Non-trivial = at least one request is not a plain valid one; distinct = distinct scenario".into()
     }
     fn assumptions() -> Vec<String> {
         vec![
